@@ -337,6 +337,116 @@ def allcuts(args):
     return ctx.export()
 
 
+# ------------------------------------------------------------------ client side
+class ChunkSock:
+    '''a blocking socket whose peer's bytes arrive in the given chunks: recv(n)
+    returns at most n bytes and never more than the chunk that has arrived'''
+
+    def __init__(self, chunks):
+        self.chunks = [c for c in chunks if c]
+        self.sent = b''
+        self.closed = False
+
+    def recv(self, n):
+        if not self.chunks:
+            raise EOFError('verif: recv on a drained connection (the reader wants more than was sent)')
+        head = self.chunks[0]
+        out, rest = head[:n], head[n:]
+        if rest:
+            self.chunks[0] = rest
+        else:
+            self.chunks.pop(0)
+        return out
+
+    def sendall(self, data):
+        self.sent += data
+
+    def close(self):
+        self.closed = True
+
+
+def client_streams():
+    '''(label, reader, frames) - what a worker / lock client / data-base client
+    reads with the blocking readers of pl.message and shelve.comms'''
+    import dawgie.pl.message as message
+    from dawgie.db.shelve.enums import Mutex
+
+    wait = message.make(typ=message.Type.wait)
+    task = message.make(typ=message.Type.task, ctxt=b'c' * 40, fac=('pkg.t', 'task'), jid='t.a', rid=7, target='A',
+                        tim={'scheduled': 'x'})
+    resp = message.make(typ=message.Type.response, suc=False)
+    out = []
+    for label, msgs in (('farm:wait,task', [wait, task]), ('farm:wait,wait,task', [wait, wait, task]),
+                        ('farm:task,response', [task, resp])):
+        out.append((label, 'receive', [message.dumps(m) for m in msgs], msgs))
+    locks = [Mutex.lock, Mutex.lock, Mutex.unlock, True]
+    out.append(('db:acquire,release', 'lock', [pickle.dumps(x, pickle.HIGHEST_PROTOCOL) for x in locks], locks))
+    table = {'k%d' % i: i for i in range(6)}
+    out.append(('db:command-reply', 'do', [pickle.dumps(table, pickle.HIGHEST_PROTOCOL)], [table]))
+    return out
+
+
+def read_client(reader, chunks, nframes):
+    '''what the real blocking readers return for the peer bytes cut into chunks'''
+    import dawgie.security
+    import dawgie.pl.message as message
+    import dawgie.db.shelve.comms as comms
+
+    sock = ChunkSock(chunks)
+    if reader == 'receive':
+        return [message.receive(sock) for _ in range(nframes)]
+    saved = dawgie.security.connect
+    dawgie.security.connect = lambda address: sock
+    try:
+        if reader == 'lock':
+            s = comms.acquire('verif')
+            left = sum(len(c) for c in sock.chunks)
+            ack = comms.release(s)
+            return ['acquired', left, ack]
+        return [comms.Connector._Connector__do(comms.COMMAND(comms.Func.table, None, comms.Table.prime, None))]
+    finally:
+        dawgie.security.connect = saved
+
+
+def client_side(args):
+    tier, seed, label, reader, frames, msgs = args
+    ctx = common.Ctx('C14', tier, seed, LEVEL)
+    stream = b''.join(struct.pack('>I', len(f)) + f for f in frames)
+    n = len(stream)
+    try:
+        whole = read_client(reader, [stream], len(frames))
+    except Exception as e:  # noqa
+        ctx.violation(f'C14/client/{label.split(":")[0]}/whole-delivery-raises/{type(e).__name__}',
+                      f'{label}: {e!r}', {'client': label, 'cuts': []})
+        return ctx.export()
+    if reader == 'receive' and whole != msgs:
+        ctx.violation(f'C14/client/{label.split(":")[0]}/whole-delivery-differs', f'{label}: read {whole}',
+                      {'client': label, 'cuts': []})
+    if reader == 'lock':
+        last = struct.pack('>I', len(frames[-1])) + frames[-1]
+        if whole != ['acquired', len(last), True]:
+            ctx.violation('C14/client/db/lock-whole-delivery', f'{label}: {whole}', {'client': label, 'cuts': []})
+    ctx.count('states')
+    cutsets = [(i,) for i in range(1, n)] + [(i, j) for i in range(1, n) for j in range(i + 1, n)]
+    if n <= 40:
+        cutsets += [(i, j, k) for i in range(1, n) for j in range(i + 1, n) for k in range(j + 1, n)]
+    for cuts in cutsets:
+        ctx.count('chunkings')
+        edges = (0,) + cuts + (n,)
+        chunks = [stream[a:b] for a, b in zip(edges, edges[1:])]
+        try:
+            got = read_client(reader, chunks, len(frames))
+        except Exception as e:  # noqa
+            ctx.violation(f'C14/client/{label.split(":")[0]}/chunking-raises/{type(e).__name__}',
+                          f'{label} cut at {cuts}: {e!r}', {'client': label, 'cuts': list(cuts)})
+            continue
+        if got != whole:
+            ctx.violation(f'C14/client/{label.split(":")[0]}/chunking-changes-messages',
+                          f'{label} cut at {cuts}: read {str(got)[:200]}, whole delivery {str(whole)[:200]}',
+                          {'client': label, 'cuts': list(cuts)})
+    return ctx.export()
+
+
 def run(ctx):
     setup_security()
     jobs = []
@@ -354,8 +464,11 @@ def run(ctx):
             ctx.sample(r['sample'])
     for r in common.pmap(allcuts, [(ctx.tier, ctx.seed, c, False, 2) for c in ('farm', 'db', 'log')]):
         ctx.merge(r)
+    for r in common.pmap(client_side, [(ctx.tier, ctx.seed) + cs for cs in client_streams()]):
+        ctx.merge(r)
     c = ctx.counters
     ctx.assumptions += [
+        'client side: a blocking recv(n) returns at most n bytes and never more than the chunk that has arrived',
         'signature scheme replaced by FakePGP (valid iff signed with the good key); the phase machine, framing and '
         'reassembly are the real code',
         'after transport.loseConnection no further bytes are delivered (twisted.internet.abstract.FileDescriptor)',
@@ -367,6 +480,9 @@ def run(ctx):
         'explanation': 'states = distinct prefix states S(j) over all streams; transitions = two-chunk executions '
                        '(i<j pairs) plus outright chunkings of the reduced streams; all on the real protocol classes',
         'streams': len(jobs) // nsh,
+        'client_side': 'blocking readers pl.message.receive (worker side of the farm channel), comms.acquire/release '
+                       'and Connector.__do (client side of the data-base channel): every 1- and 2-cut chunking of '
+                       f'{len(client_streams())} multi-message streams (3 cuts for streams <= 40 bytes)',
     }
     return common.finish(ctx, cov, exhaustive=True)
 
@@ -374,6 +490,21 @@ def run(ctx):
 def replay(data):
     setup_security()
     r = data['replay']
+    if 'client' in r:
+        label, reader, frames, msgs = [cs for cs in client_streams() if cs[0] == r['client']][0]
+        stream = b''.join(struct.pack('>I', len(f)) + f for f in frames)
+        edges = [0] + list(r['cuts']) + [len(stream)]
+        chunks = [stream[a:b] for a, b in zip(edges, edges[1:])]
+        whole = read_client(reader, [stream], len(frames))
+        try:
+            got = read_client(reader, chunks, len(frames))
+        except Exception as e:  # noqa
+            got = repr(e)
+        print('client stream', label, len(stream), 'bytes, cuts', r['cuts'])
+        print('chunked :', str(got)[:300])
+        print('at once :', str(whole)[:300])
+        print('VIOLATES' if got != whole else 'ok')
+        return 1 if got != whole else 0
     chan = Chan(r['chan'], r['shake'])
     if r['label'] == 'tiny':
         b, exp = app_messages(chan, tiny=True)
